@@ -69,6 +69,9 @@ theorem opAddSub_eq_ctx_all (B : Nat) (m : Mode) (c : Coarse) (dub : Int → Nat
       simp only [hne, if_false]
       unfold FRepr.neg; simp
   · simp only [hlz, if_false, Bool.false_eq_true]
+    by_cases hrz : rhs.isZero = true
+    · simp only [hrz, if_true]
+    · simp only [hrz, if_false, Bool.false_eq_true]
 
 /-- the round-3 statement (operands that fit the precision), kept under its name for the modules that cite it -/
 theorem opAddSub_eq_ctx (B : Nat) (m : Mode) (c : Coarse) (dub : Int → Nat) (p : Nat) (lhs rhs : FRepr) (rs : Int)
